@@ -269,50 +269,68 @@ Definition less_than_prefix (item prefix : str) : bool :=
 
 Record lacc := mkLacc {
   la_count : nat; la_found : list str (* reversed *); la_prefixes : list str (* reversed *);
-  la_more : bool; la_skip : option str (* directory being skipped (SkipDir) *); la_done : bool }.
+  la_more : bool; la_skip : option str (* directory being skipped (SkipDir) *); la_done : bool;
+  la_last : option str (* the last item or collapsed prefix put on the page *) }.
 
 Definition s_sep : str := [47]%N.
+
+(* the prefix a name collapses into under a delimiter (including the closing delimiter) *)
+Definition collapse_of (delim prefix fname : str) : option str :=
+  match delim with
+  | [] => None
+  | _ => match index_of (trim_prefix fname prefix) delim with
+         | Some pos => Some (firstn (length prefix + pos + length delim) fname)
+         | None => None
+         end
+  end.
+
+(* a page token that names a collapsed prefix (it ends with the delimiter that closes the prefix):
+   the next page resumes after every name below it *)
+Definition skip_group (delim cursor prefix : str) : option str :=
+  match delim with
+  | [] => None
+  | _ => if has_prefix cursor prefix && has_suffix cursor delim
+         then match index_of (skipn (length prefix) cursor) delim with
+              | Some pos => if Nat.eqb (pos + length prefix + length delim) (length cursor) then Some cursor else None
+              | None => None
+              end
+         else None
+  end.
 
 (* one invocation of the walk callback; e = (name, isdir), entries come in walk order *)
 Definition list_step (delim cursor prefix : str) (maxres : nat) (a : lacc) (e : str * bool) : lacc :=
   let '(fname, isdir) := e in
   if la_done a then a else
   if match la_skip a with Some d => has_prefix fname d | None => false end then a else
-  let a := mkLacc (la_count a) (la_found a) (la_prefixes a) (la_more a) None false in
+  let a := mkLacc (la_count a) (la_found a) (la_prefixes a) (la_more a) None false (la_last a) in
   if greater_than_prefix fname prefix
-  then mkLacc (la_count a) (la_found a) (la_prefixes a) (la_more a) None true
+  then mkLacc (la_count a) (la_found a) (la_prefixes a) (la_more a) None true (la_last a)
   else if isdir then
     if less_than_prefix fname cursor || less_than_prefix fname prefix
-    then mkLacc (la_count a) (la_found a) (la_prefixes a) (la_more a) (Some (fname ++ s_sep)) false
+    then mkLacc (la_count a) (la_found a) (la_prefixes a) (la_more a) (Some (fname ++ s_sep)) false (la_last a)
     else a
   else if lex_leb fname cursor then a
   else if negb (has_prefix fname prefix) then a
-  else if (maxres <=? la_count a)%nat
-  then mkLacc (la_count a) (la_found a) (la_prefixes a) true None true
+  else if match skip_group delim cursor prefix with Some g => has_prefix fname g | None => false end then a
   else
-    let count' := S (la_count a) in
-    let collapsed :=
-      match delim with
-      | [] => None
-      | _ => match index_of (trim_prefix fname prefix) delim with
-             | Some pos => Some (firstn (length prefix + pos + length delim) fname)
-             | None => None
-             end
-      end in
-    match collapsed with
-    | Some ip =>
-        if existsb (beqb ip) (la_prefixes a)
-        then mkLacc count' (la_found a) (la_prefixes a) (la_more a) None false
-        else mkLacc count' (la_found a) (ip :: la_prefixes a) (la_more a) None false
-    | None => mkLacc count' (fname :: la_found a) (la_prefixes a) (la_more a) None false
-    end.
+    let collapsed := collapse_of delim prefix fname in
+    if match collapsed with Some ip => existsb (beqb ip) (la_prefixes a) | None => false end
+    then a                       (* below a prefix already on this page: takes no further room *)
+    else if (maxres <=? la_count a)%nat
+    then mkLacc (la_count a) (la_found a) (la_prefixes a) true None true (la_last a)
+    else
+      let count' := S (la_count a) in
+      match collapsed with
+      | Some ip => mkLacc count' (la_found a) (ip :: la_prefixes a) (la_more a) None false (Some ip)
+      | None => mkLacc count' (fname :: la_found a) (la_prefixes a) (la_more a) None false (Some fname)
+      end.
 
-(* result: found item names, collapsed prefixes, moreResults *)
+(* result: found item names, collapsed prefixes, moreResults, last entry of the page *)
 Definition list_walk (delim cursor prefix : str) (maxres : nat) (entries : list (str * bool))
-  : list str * list str * bool :=
+  : list str * list str * bool * option str :=
   let a := fold_left (list_step delim cursor prefix maxres) entries
-                     (mkLacc 0 [] [] false None false) in
-  (rev (la_found a), rev (la_prefixes a), la_more a).
+                     (mkLacc 0 [] [] false None false None) in
+  (rev (la_found a), rev (la_prefixes a), la_more a, la_last a).
 
 (* memory store: btree ascending by name, no directories *)
 Definition mem_entries (bk : bucket) : list (str * bool) := map (fun p => (fst p, false)) bk.
@@ -388,7 +406,10 @@ Definition handle (s : state) (r : req) : state * resp :=
   | RUploadMultipart b m data cp =>
       match resolve_conds s cp with
       | None => (s, err 400)
-      | Some c => finish_upload s b (um_name m) (um_ctype m) (um_md5 m) (um_meta m) data c
+      | Some c => match um_name m with
+                  | [] => (s, err 400)              (* missing object name *)
+                  | _ => finish_upload s b (um_name m) (um_ctype m) (um_md5 m) (um_meta m) data c
+                  end
       end
   | RUploadMultipartBad b cp =>
       match resolve_conds s cp with
@@ -400,10 +421,12 @@ Definition handle (s : state) (r : req) : state * resp :=
       | None => (s, err 400)
       | Some c =>
           if bad then (s, err 400) else
+          match um_name m with [] => (s, err 400) | _ =>     (* missing object name *)
           let id := s_upcount s + 1 in
           let ids := print_int id in
           let u := mkUpload b (um_name m) (um_ctype m) (um_md5 m) (um_meta m) c [] in
           (set_uploads s id (ainsert ids u (s_uploads s)), mkResp 200 (BUploadInit ids))
+          end
       end
   | RResumablePut id crange data =>
       match alookup id (s_uploads s) with
@@ -491,14 +514,10 @@ Definition handle (s : state) (r : req) : state * resp :=
         | None => (s, err 404)
         | Some bk =>
             let cur := match cursor with Some c => c | None => [] end in
-            let '(found, prefixes, more) := list_walk delim cur prefix (Z.to_nat m) (mem_entries bk) in
+            let '(found, prefixes, more, last) := list_walk delim cur prefix (Z.to_nat m) (mem_entries bk) in
             let items := flat_map (fun n => match alookup n bk with
                                             | Some o => [view b n o] | None => [] end) found in
-            let next := if more then match rev items with
-                                     | v :: _ => Some (v_name v)
-                                     | [] => None
-                                     end
-                        else None in
+            let next := if more then last else None in
             (s, mkResp 200 (BList items prefixes next))
         end
       end
@@ -509,6 +528,7 @@ Definition handle (s : state) (r : req) : state * resp :=
         if bad then (s, err 400) else
         match split (dst ++ s_compose) s_compose with
         | [dstname; _] =>
+            match dstname with [] => (s, err 400) | _ =>    (* missing destination object name *)
             if (Z.of_nat (length srcs) >? gcsMaxComposeSources) then (s, err 400) else
             let step (acc : option (Z * bytes)) (sc : str * cparam) : option (Z * bytes) :=
               match acc with
@@ -539,6 +559,7 @@ Definition handle (s : state) (r : req) : state * resp :=
             | Some (code, _) => (s, err code)
             | None => (s, err 500)
             end
+            end
         | _ => (s, err 400)
         end
       end
@@ -549,6 +570,7 @@ Definition handle (s : state) (r : req) : state * resp :=
       | [f1; rest] =>
           match split2 rest s_o with
           | [b2'; f2] =>
+              match f2 with [] => (s, err 400) | _ =>      (* missing destination object name *)
               match find_obj s b1 f1 with
               | None => (s, err 404)
               | Some o =>
@@ -557,6 +579,7 @@ Definition handle (s : state) (r : req) : state * resp :=
                   | Some o' => (s', mkResp 200 (BRewrite (view b2' f2 o')))
                   | None => (s', err 500)
                   end
+              end
               end
           | _ => (s, err 400)
           end
